@@ -105,8 +105,10 @@ func runOne(t *testing.T, sc *Scenario, prop string, seed uint64, run int, force
 		simrt.CreateHook = nil
 		simrt.OpenHook = nil
 		restoreBufs()
-		if rc.Viol == nil && sc.Post != nil && (res.End == simrt.EndClean || res.End == simrt.EndStuck || res.End == simrt.EndDeadlock) {
+		if rc.Viol == nil && sc.Post != nil && res.End != simrt.EndAbort && res.End != simrt.EndPanic {
+			simSnapshotTasks = sim.Tasks()
 			sc.Post(rc, res)
+			simSnapshotTasks = nil
 		}
 		rec := &Record{
 			Prop: prop, Seed: seed, Run: run,
@@ -127,7 +129,7 @@ func runOne(t *testing.T, sc *Scenario, prop string, seed uint64, run int, force
 			rec.Trace = formatTrace(sim.Trace(), sim.Tasks(), 400)
 			rec.NetLog = formatNetLog(rc.Net, 200)
 		}
-		if full || run%7 == 0 {
+		if full || run%40 == 0 {
 			rec.Edges = sim.Edges()
 		}
 		rec.WallUs = time.Since(wall).Microseconds() // fake clock inside bubble; overwritten below
